@@ -64,8 +64,8 @@ def _txt(ts):
 class E:
     """expression parser over a token list: comparison < additive < multiplicative < postfix < primary"""
 
-    def __init__(self, ts, where):
-        self.t, self.i, self.w = ts, 0, where
+    def __init__(self, ts, where, exp_alias=()):
+        self.t, self.i, self.w, self.ea = ts, 0, where, list(exp_alias)
 
     def peek(self):
         return self.t[self.i][:2] if self.i < len(self.t) else ("eof", "")
@@ -119,6 +119,8 @@ class E:
                     depth -= 1
                 self.i += 1
             arg = _txt(self.t[st:self.i - 1])
+            if m == "powi" and arg in self.ea:
+                arg = POWI_ARG
             a = ("call", m, arg, a)
         return a
 
@@ -126,7 +128,10 @@ class E:
         k, x = self.peek()
         if (k, x) == ("punct", "("):
             self.i += 1
-            a = self.cond()
+            sub = E(self.t, self.w, self.ea)
+            sub.i = self.i
+            a = sub.cond()
+            self.i = sub.i
             self.eat("punct", ")")
             return a
         if k == "id":
@@ -250,7 +255,11 @@ def translate_to_from(toks, name):
             kinds.append("cons")
             cons = "ConsAdd" if rhs.endswith("Add)") else "ConsSub"
         else:
-            raise TranslateError(f"{where}: `let {nm} = {rhs[:70]}` is none of the four bindings the model knows")
+            # any other local that is pure arithmetic over what is already known: it denotes its expression
+            try:
+                names[nm] = _term(E(s[3:], where).cond(), {k_: v_ for k_, v_ in names.items() if v_ != "RAW"}, where)
+            except TranslateError:
+                raise TranslateError(f"{where}: `let {nm} = {rhs[:70]}` is neither one of the four bindings the model knows nor arithmetic over them")
     flags = {"v_conv": "v" in kinds, "coef_unit": "coef" in kinds, "f_product": "f" in kinds, "cons": cons,
              "lets": sorted(kinds) == ["coef", "cons", "f", "v"]}
     names = {k_: v_ for k_, v_ in names.items() if v_ != "RAW"}
@@ -302,6 +311,7 @@ def translate_change_base(toks):
     names = {acc: "TV"}
     r_side = l_side = "SideUnknown"
     nlets = 0
+    exp_alias = []
     for s in bst[:-1]:
         if s[0][:2] != ("id", "let") or s[2][:2] != ("punct", "="):
             raise TranslateError(f"{where}: unexpected statement in step {_txt(s)[:60]!r}")
@@ -314,15 +324,20 @@ def translate_change_base(toks):
         elif rhs == "Ul::$name::coefficient()":
             names[nm] = "TL"
             l_side = "SideLeft"
+        elif rhs == POWI_ARG:
+            exp_alias.append(nm)            # `let e = D::$symbol::to_i32();`
         else:
-            raise TranslateError(f"{where}: `let {nm} = {rhs[:70]}` is not a base-unit coefficient")
+            try:
+                names[nm] = _term(E(s[3:], where, exp_alias).cond(), names, where)
+            except TranslateError:
+                raise TranslateError(f"{where}: `let {nm} = {rhs[:70]}` is neither a base-unit coefficient, the exponent, nor arithmetic over them")
     lets = {}
     cond_t, a_t, b_t = _if_parts(bst[-1], where)
-    cond = _cond(E(cond_t, where).cond(), names, where)
+    cond = _cond(E(cond_t, where, exp_alias).cond(), names, where)
     last = E(final, where).cond()
     _, took = _strip_value(last, where)
     return {"name": "change_base", "attrs": attrs, "first_ok": first_ok, "r_side": r_side, "l_side": l_side, "cond": cond,
-            "then": _term(E(a_t, where).cond(), names, where), "else": _term(E(b_t, where).cond(), names, where),
+            "then": _term(E(a_t, where, exp_alias).cond(), names, where), "else": _term(E(b_t, where, exp_alias).cond(), names, where),
             "value": took and last[0] == "call" and last[3] == ("id", acc), "nlets": nlets}
 
 
